@@ -230,7 +230,7 @@ Lemma geval_S n e f st :
     | Rep plus sep omitsep e1 => rep_eval on_cut n (gev n) plus e1 sep omitsep f st
     | Look false e1 =>
       match gev n e1 (push f) st with
-      | (Ok r _, st1) => (Ok r f, st1)
+      | (Ok _ _, st1) => (Ok VNone f, st1)
       | (Fail _, st1) => (Fail (cutseen f), st1)
       | (Fatal x, st1) => (Fatal x, st1)
       end
